@@ -104,6 +104,7 @@ def solve_vc(vc: VC, timeout_ms: int, known_open: Optional[List[str]] = None) ->
     res = str(r)
     if res == "unknown":
         rec["z3_reason"] = s.reason_unknown()
+    if res == "unknown" and vc.kind == "vc":  # guards stay inconclusive rather than spending a second solver's budget on them
         c = _cvc5(s.to_smt2().replace("(check-sat)", "") + "(check-sat)\n", max(10, timeout_ms // 1000))
         if c in ("sat", "unsat"):
             res = c
